@@ -9,7 +9,7 @@ import (
 
 func init() {
 	register("C05",
-		"Decides the structural premises of the exactly-once teardown argument on every path of the functions involved (handler task, its panic path, onHup, onClose, closeCallback, finalizer, netFD.Close, FDOperator.Control): callbacks only under the processing lock; the closer never unlocks; closed-before-callbacks; closing is monotone; only the runner invokes CloseCallbacks in LIFO link order; close/detach/free once-guards; the unlock -> re-read -> help hand-off after every release of the processing lock; finalizer order. Not decided: linearizability of sync/atomic, re-entrant user callbacks, descriptor identity at run time.",
+		"Decides the structural premises of the exactly-once teardown argument on every path of the functions involved (handler task, its panic path, onHup, onClose, closeCallback, finalizer, netFD.Close, FDOperator.Control): callbacks only under the processing lock; the closer never unlocks; closed-before-callbacks; closing is monotone; only the runner invokes CloseCallbacks in LIFO link order; close/detach/free once-guards; the unlock -> re-read -> help hand-off after every release of the processing lock; finalizer order. The callback walk ends only at the end of the chain; needLock=true is used only where the caller does not hold the lock; the close wake-ups precede the callbacks (the finalizer waits for the flushing lock); Detach marks the descriptor on every path. Not decided: linearizability of sync/atomic, re-entrant user callbacks, descriptor identity at run time.",
 		[]string{"sync/atomic CAS/Load/Store are linearizable", "user callbacks panic only inside the callback call itself"},
 		func(r *Run) {
 			cfgs := []string{"linux"}
